@@ -331,6 +331,15 @@ func genGraph(r rng, seed uint64, id, family string, k Knobs) *sdl.Program {
 			ni++
 			if unnamedUsed || r.p(0.45) {
 				inst.Alias = fmt.Sprintf("n%d", alias)
+				if alias > 0 && r.p(0.12) {
+					// a name that differs from an earlier one in capitalisation only
+					inst.Alias = fmt.Sprintf("N%d", r.IntN(alias))
+					for _, o := range p.Instances {
+						if o.Alias == inst.Alias {
+							inst.Alias = fmt.Sprintf("n%d", alias)
+						}
+					}
+				}
 				alias++
 			} else {
 				unnamedUsed = true
